@@ -266,3 +266,5 @@ func verifParseYAML(src string) *yaml.Node {
 }
 
 func verifDebug(label string, s string) { fmt.Printf("VERIF-DEBUG %s %s\n", label, strconv.Quote(s)) }
+
+func verifSetCwd(dir string) {}
